@@ -43,6 +43,7 @@ type Event struct {
 
 type Worker struct {
 	ID     int
+	Clock  int64 // virtual time (ns) of this goroutine, see vshim/vtime
 	G      *Group
 	Pos    int
 	Log    *[]Event
@@ -168,3 +169,6 @@ func KeepAlive(w *Worker, ps ...unsafe.Pointer) {
 	w.G.Keep = append(w.G.Keep, ps...)
 	w.mu.Unlock()
 }
+
+// Current returns the controlled worker of the calling goroutine (nil for any other goroutine).
+func Current() *Worker { return cur() }
